@@ -14,7 +14,7 @@ import sympy as sp
 
 from ..facts import Broken, pp, loc, walk
 from ..effects import callee, EIGEN_VIEWS
-from .. import sym, core, rawview
+from .. import sym, core, rawview, history
 from ..sym import Interp, Vec, Unsupported
 from ..model import spline_model
 from ..blocks import BlockRun
@@ -177,44 +177,46 @@ def run(chk):
     # ---- R1 (second half) + R2: Engine A interprets the numeric code; scalar stores are free of data ------------
     for short in SPLINES:
         for cls in alg_classes(F, short, ("update", "propagateGrad")):
-            M = spline_model(F, cls)
-            runs = []
-            for kind in ("middle", "first"):
-                I, ret = c01.run_solver(F, M, {"first": kind == "first", "last": False})
-                runs.append(("solve/" + kind, I))
-            for g in M.sequence:
-                if g is M.solve_fn or g["fid"] == M.handover[0]["fid"]:
-                    continue
-                I = Interp(F, cls)
-                I.field_assumptions[M.m_count] = {"positive": True}
-                I.case = {"first": False, "last": False}
-                try:
-                    I.run_body(g, {})
-                except Unsupported as ex:
-                    raise Broken("cannot interpret %s: %s" % (g["name"], ex))
-                runs.append((g["name"], I))
-            fA, IA, envA = c05.run_adjoint(F, M, "middle")
-            runs.append(("adjoint/middle", IA))
-            nsc = 0
-            tainted = []
-            for nm, I in runs:
-                effs = list(I.effects)
-                stack = list(I.loops)
-                while stack:
-                    L = stack.pop()
-                    effs.extend(L.effects)
-                for e in effs:
-                    v = e.value
-                    if e.target.startswith("$"):
+            def per_class(chk, short=short, cls=cls):
+                M = spline_model(F, cls)
+                runs = []
+                for kind in ("middle", "first"):
+                    I, ret = c01.run_solver(F, M, {"first": kind == "first", "last": False})
+                    runs.append(("solve/" + kind, I))
+                for g in M.sequence:
+                    if g is M.solve_fn or g["fid"] == M.handover[0]["fid"]:
                         continue
-                    if isinstance(v, sp.Basic) and not e.target.startswith("grad") and not e.target.endswith("Grad") and e.target not in ("gradByTimes",):
-                        nsc += 1
-                        if sym.dots_in(v):
-                            tainted.append((nm, e.target, str(e.key)))
-            chk.ob("C13-R2", "%s scalar stores (factor caches, duration powers, knot times) are independent of waypoint / boundary / gradient data" % cls, not tainted, loc(M.solve_fn),
-                   "%d scalar stores inspected; data-dependent: %s" % (nsc, tainted[:4]), construct=cls + "/data-independent-factors")
-            chk.ob("C13-R1", "%s solver, precomputation and adjoint are expressible in the coordinate-uniform abstract domain" % cls, True, loc(M.solve_fn),
-                   "interpreted: %s" % [nm for nm, _ in runs], construct=cls + "/engine-A-uniform")
+                    I = Interp(F, cls)
+                    I.field_assumptions[M.m_count] = {"positive": True}
+                    I.case = {"first": False, "last": False}
+                    try:
+                        I.run_body(g, {})
+                    except Unsupported as ex:
+                        raise Broken("cannot interpret %s: %s" % (g["name"], ex))
+                    runs.append((g["name"], I))
+                fA, IA, envA = c05.run_adjoint(F, M, "middle")
+                runs.append(("adjoint/middle", IA))
+                nsc = 0
+                tainted = []
+                for nm, I in runs:
+                    effs = list(I.effects)
+                    stack = list(I.loops)
+                    while stack:
+                        L = stack.pop()
+                        effs.extend(L.effects)
+                    for e in effs:
+                        v = e.value
+                        if e.target.startswith("$"):
+                            continue
+                        if isinstance(v, sp.Basic) and not e.target.startswith("grad") and not e.target.endswith("Grad") and e.target not in ("gradByTimes",):
+                            nsc += 1
+                            if sym.dots_in(v):
+                                tainted.append((nm, e.target, str(e.key)))
+                chk.ob("C13-R2", "%s scalar stores (factor caches, duration powers, knot times) are independent of waypoint / boundary / gradient data" % cls, not tainted, loc(M.solve_fn),
+                       "%d scalar stores inspected; data-dependent: %s" % (nsc, tainted[:4]), construct=cls + "/data-independent-factors")
+                chk.ob("C13-R1", "%s solver, precomputation and adjoint are expressible in the coordinate-uniform abstract domain" % cls, True, loc(M.solve_fn),
+                       "interpreted: %s" % [nm for nm, _ in runs], construct=cls + "/engine-A-uniform")
+            history.for_each_outcome(chk, per_class)
     chk.floor("C13-R2", 4)
     # ---- R3 branch agreement ----------------------------------------------------------------------------------------
     sept = alg_classes(F, "SepticSplineND", ("update", "propagateGrad"))
